@@ -119,7 +119,9 @@ class C08(core.Check):
         "radius 0.03..30 in a random plane, included angle (0.02, pi-0.05), flatness 1; origin_adj: flatness != 1 or a "
         "non-equidistant origin; arc3: three points on a circle with the third point strictly inside the arc, swept angle "
         "(0.05, 2*pi-0.05) away from pi; arc3_beyond: third point between the end and the antipode of the start (known "
-        "finding); curve_tf: OnCurve edges over linear/spline/discrete curves placed by translate/rotate/scale/mirror as method "
+        "finding); flat arcs (radius 100..4000, sector angle 2e-4..1.5e-3, chord*rise >= 10 TOL) in the theta/origin/mesh streams; "
+        "arc_hist / mesh_hist: one Origin/Angle edge object (also inside an assembled Mesh) observed, its end vertices moved to "
+        "other valid positions, observed again; curve_tf: OnCurve edges over linear/spline/discrete curves placed by translate/rotate/scale/mirror as method "
         "calls or as a transformation list; mesh: origin/angle arcs on the 12 edge positions of one or two stacked lofts in "
         "general position, observed in the assembled mesh's edges section; poly/curve/simple: spline, polyLine, curve, line and project edges over random point sets; reject: "
         "angles outside (0, 2*pi), collinear arc points, a one-point polyline. Non-trivial = every case; distinct = "
@@ -142,12 +144,20 @@ class C08(core.Check):
     )
 
     # ------------------------------------------------------------------ generators
-    def _theta_case(self, rng: random.Random) -> dict:
+    def _theta_case(self, rng: random.Random, flat: bool = False) -> dict:
         e1, e2, n = _frame(rng)
         chord = 10 ** rng.uniform(-1.3, 1.7)
         off = [rng.uniform(-10, 10) for _ in range(3)]
         r = rng.random()
-        if r < 0.2:
+        if flat:
+            # a flat arc: block-sized chord, radius 100..4000, sector angle below 1.5e-3; the rise (1e-5..1e-3) is far above
+            # the written precision and chord*rise is at least 10*TOL, so the arc must be kept as an arc
+            while True:
+                chord = rng.uniform(0.15, 1.5)
+                theta = rng.uniform(2e-4, 1.5e-3)
+                if chord * chord * theta / 8 >= 1e-6:
+                    break
+        elif r < 0.2:
             theta = rng.choice([math.pi, math.pi / 2, 1.5 * math.pi, math.pi - 1e-3, math.pi + 1e-3, 3.0, 3.3])
         elif r < 0.6:
             theta = rng.uniform(math.pi, TWO_PI - 0.05)
@@ -160,13 +170,16 @@ class C08(core.Check):
         p2 = _add(off, _mul(chord, e1))
         return {"kind": "theta", "p1": p1, "p2": p2, "axis": _mul(ax_scale, n), "theta": theta}
 
-    def _origin_case(self, rng: random.Random, adjust: bool) -> dict:
+    def _origin_case(self, rng: random.Random, adjust: bool, flat: bool = False) -> dict:
         while True:
             e1, e2, n = _frame(rng)
             R = 10 ** rng.uniform(-1.5, 1.5)
             C = [rng.uniform(-10, 10) for _ in range(3)]
             a0 = rng.uniform(0, TWO_PI)
             phi = rng.uniform(0.02, math.pi - 0.05) * rng.choice([1, -1])
+            if flat:  # large radius, small included angle (see _theta_case)
+                R = 10 ** rng.uniform(2, 3.3)
+                phi = rng.uniform(2e-4, 1.5e-3) * rng.choice([1, -1])
             pt = lambda a, rad: _add(C, _add(_mul(rad * math.cos(a), e1), _mul(rad * math.sin(a), e2)))
             mult = 1.0
             R2 = R
@@ -178,7 +191,7 @@ class C08(core.Check):
             p1, p2 = pt(a0, R), pt(a0 + phi, R2)
             ch = _norm(_sub(p2, p1))
             sag = R * (1 - math.cos(phi / 2))
-            if ch * sag > 1e-5 and ch > 1e-3:
+            if (ch * sag > 1e-5 and ch > 1e-3) or (flat and ch * sag >= 1e-6 and ch <= 3.0):
                 return {"kind": "origin_adj" if adjust else "origin", "p1": p1, "p2": p2, "origin": C, "flatness": mult}
 
     def _arc3_case(self, rng: random.Random, beyond: bool) -> dict:
@@ -287,6 +300,8 @@ class C08(core.Check):
                     break
             if r < 0.65:
                 theta = rng.uniform(0.3, 2.8) if rng.random() < 0.8 else rng.uniform(3.4, 4.5)
+                if rng.random() < 0.12 and ch * ch * 2e-4 / 8 >= 1e-6:
+                    theta = rng.uniform(max(2e-4, 8e-6 / (ch * ch)), 1.5e-3)  # a flat arc that must still be written
                 theta *= rng.choice([1, -1])
                 return {"type": "angle", "theta": theta, "axis": _mul(rng.choice([1.0, 0.5, 3.0]), perp)}
             phi = rng.uniform(0.3, 2.8)
@@ -308,6 +323,69 @@ class C08(core.Check):
             )
         return {"kind": "mesh", "lofts": lofts}
 
+    def _arc_hist_case(self, rng: random.Random) -> dict:
+        """one Origin / Angle edge object; its end vertices are moved (to positions that are valid for the same
+        specification) between observations"""
+        steps = []
+        if rng.random() < 0.5:
+            base = self._theta_case(rng)
+            a = _unit(base["axis"])
+            for _ in range(rng.randint(2, 3)):
+                while True:
+                    t = [rng.gauss(0, 1) for _ in range(3)]
+                    d = _cross(a, t)
+                    if _norm(d) > 0.3:
+                        break
+                chord = 10 ** rng.uniform(-1, 1.3)
+                p1 = [rng.uniform(-10, 10) for _ in range(3)]
+                steps.append(dict(base, p1=p1, p2=_add(p1, _mul(chord, _unit(d)))))
+            return {"kind": "arc_hist", "spec": "theta", "steps": steps}
+        base = self._origin_case(rng, False)
+        C = base["origin"]
+        for _ in range(rng.randint(2, 3)):
+            c = self._origin_case(rng, False)
+            shift = _sub(C, c["origin"])  # same origin, other end points
+            steps.append(dict(base, p1=_add(c["p1"], shift), p2=_add(c["p2"], shift)))
+        return {"kind": "arc_hist", "spec": "origin", "steps": steps}
+
+    def _mesh_hist_case(self, rng: random.Random) -> dict:
+        """a loft with arcs on its four side edges, assembled; then the top vertices are moved (each to a position that is
+        valid for the specification of its side edge) and the edges section is read again"""
+        m = self._mesh_case(rng, 1)
+        lf = m["lofts"][0]
+        lf["bottom_edges"] = [None] * 4
+        lf["top_edges"] = [None] * 4
+        top2 = []
+        for i in range(4):
+            b, t = lf["bottom"][i], lf["top"][i]
+            dp = _sub(t, b)
+            L = _norm(dp)
+            c = _unit(dp)
+            while True:
+                u = [rng.gauss(0, 1) for _ in range(3)]
+                perp = _cross(dp, u)
+                if _norm(perp) > 0.3 * L:
+                    perp = _unit(perp)
+                    break
+            if rng.random() < 0.5:
+                theta = rng.uniform(0.3, 2.8) * rng.choice([1, -1])
+                lf["side_edges"][i] = {"type": "angle", "theta": theta, "axis": perp}
+                beta = rng.uniform(-0.4, 0.4)
+                w = _cross(perp, c)
+                top2.append(_add(b, _mul(L * rng.uniform(0.7, 1.4), _add(_mul(math.cos(beta), c), _mul(math.sin(beta), w)))))
+            else:
+                phi = rng.uniform(0.5, 2.2)
+                h = L / 2 / math.tan(phi / 2)
+                C = _add(_mul(0.5, _add(b, t)), _mul(h, perp))
+                lf["side_edges"][i] = {"type": "origin", "origin": C}
+                R = _norm(_sub(b, C))
+                u1 = _unit(_sub(b, C))
+                tt = _sub(t, C)
+                w = _unit(_sub(tt, _mul(_dot(tt, u1), u1)))
+                phi2 = phi + rng.uniform(-0.25, 0.25)
+                top2.append(_add(C, _add(_mul(R * math.cos(phi2), u1), _mul(R * math.sin(phi2), w))))
+        return {"kind": "mesh_hist", "lofts": [lf], "top2": top2}
+
     def gen_cases(self, rng: random.Random, tier: str) -> List[dict]:
         n = 160 if tier == "quick" else 1600
         cases: List[dict] = []
@@ -324,6 +402,13 @@ class C08(core.Check):
             cases.append({"kind": "simple", "edge": rng.choice(["line", "project"]), "points": [p, q]})
         for _ in range(max(3, n // 20)):
             cases.append(self._arc3_case(rng, True))
+        for _ in range(max(8, n // 8)):
+            cases.append(self._theta_case(rng, flat=True))
+            cases.append(self._origin_case(rng, False, flat=True))
+        for _ in range(n // 5):
+            cases.append(self._arc_hist_case(rng))
+        for _ in range(max(6, n // 16)):
+            cases.append(self._mesh_hist_case(rng))
         for _ in range(n // 4):
             cases.append(self._curve_tf_case(rng))
         for i in range(max(10, n // 10)):
@@ -396,6 +481,48 @@ class C08(core.Check):
                 data = edges.Line() if case["edge"] == "line" else edges.Project("geo")
                 pts = case["points"]
                 return observe(mk(pts[0], pts[1], data))
+            if kind == "arc_hist":
+                st0 = case["steps"][0]
+                data = edges.Angle(st0["theta"], st0["axis"]) if case["spec"] == "theta" else edges.Origin(st0["origin"], st0["flatness"])
+                v1, v2 = Vertex(st0["p1"], 0), Vertex(st0["p2"], 1)
+                edge = factory.create(v1, v2, data)
+                obs = []
+                for k, st in enumerate(case["steps"]):
+                    if k > 0:
+                        v1.move_to(st["p1"])
+                        v2.move_to(st["p2"])
+                    obs.append(observe(edge))
+                return {"steps": obs}
+            if kind == "mesh_hist":
+                import classy_blocks as cb
+
+                def data(sp):
+                    return edges.Angle(sp["theta"], sp["axis"]) if sp["type"] == "angle" else edges.Origin(sp["origin"])
+
+                lf = case["lofts"][0]
+                loft = cb.Loft(cb.Face(lf["bottom"]), cb.Face(lf["top"]))
+                for i, sp in enumerate(lf["side_edges"]):
+                    loft.add_side_edge(i, data(sp))
+                mesh = cb.Mesh()
+                mesh.add(loft)
+                mesh.assemble()
+
+                def snap():
+                    return {
+                        "vertices": [[float(x) for x in v.position] for v in mesh.vertex_list.vertices],
+                        "indexes": [int(v.index) for v in mesh.vertex_list.vertices],
+                        "text": mesh.edge_list.description,
+                        "edges": [
+                            [int(e.vertex_1.index), int(e.vertex_2.index), e.kind, float(e.length)] for e in mesh.edge_list.edges
+                        ],
+                    }
+
+                first = snap()
+                for t, t2 in zip(lf["top"], case["top2"]):
+                    for v in mesh.vertex_list.vertices:
+                        if max(abs(float(a) - b) for a, b in zip(v.position, t)) < 1e-12:
+                            v.move_to(t2)
+                return {"steps": [first, snap()]}
             if kind == "curve_tf":
                 import classy_blocks as cb
 
@@ -484,8 +611,19 @@ class C08(core.Check):
         raise AssertionError("unknown kind " + kind)
 
     # ------------------------------------------------------------------ model
+    @staticmethod
+    def _hist_steps(case: dict, impl: Any):
+        """(sub-case, sub-observation) of every step of a history case"""
+        if case["kind"] == "arc_hist":
+            return list(zip(case["steps"], impl["steps"]))
+        lf = case["lofts"][0]
+        moved = dict(lf, top=case["top2"])
+        return [({"kind": "mesh", "lofts": [lf]}, impl["steps"][0]), ({"kind": "mesh", "lofts": [moved]}, impl["steps"][1])]
+
     def requests(self, case: dict, impl: Any) -> List[str]:
         kind = case["kind"]
+        if kind in ("arc_hist", "mesh_hist"):
+            return [r for sub, obs in self._hist_steps(case, impl) for r in self.requests(sub, obs)]
         eps = core.rat(EPS_WIT)
         if kind in ("theta", "theta_bad"):
             th = case["theta"]
@@ -587,6 +725,15 @@ class C08(core.Check):
 
     def compare(self, case: dict, impl: Any, model: List[str]) -> Optional[str]:
         kind = case["kind"]
+        if kind in ("arc_hist", "mesh_hist"):
+            pos = 0
+            for k, (sub, obs) in enumerate(self._hist_steps(case, impl)):
+                n = len(self.requests(sub, obs))
+                why = self.compare(sub, obs, model[pos : pos + n]) if n else None
+                pos += n
+                if why:
+                    return f"step {k}" + (" (after moving the end vertices)" if k else "") + ": " + why
+            return None
         ans = model[0].split()
         if ans[0].startswith("bad"):
             return f"model answers {model[0]}"
@@ -661,6 +808,13 @@ class C08(core.Check):
     def oracle(self, case: dict, impl: Any) -> List[dict]:
         out: List[dict] = []
         kind = case["kind"]
+        if kind in ("arc_hist", "mesh_hist"):
+            for k, (sub, obs) in enumerate(self._hist_steps(case, impl)):
+                for v in self.oracle(sub, obs):
+                    if k > 0:
+                        v = dict(v, site=v["site"] + ":after-moving-vertices", what=f"step {k}: " + str(v["what"]))
+                    out.append(v)
+            return out
 
         def bad(site, what, observed=None, expected=None):
             out.append({"site": site, "what": what, "observed": observed, "expected": expected})
@@ -708,7 +862,8 @@ class C08(core.Check):
             elif not abs(impl["length"] - R * abs(th)) <= TOL_LEN * max(1.0, R * abs(th)):
                 bad("AngleEdge.length", f"theta={th}: length {impl['length']}, radius*angle {R * abs(th)}", impl["length"], R * abs(th))
             check_desc("AngleEdge.description", exp_m, sc)
-            chord_bound(p1, p2, "angle")
+            # acos of a cosine rounded at 1e-16 carries a relative error of about 1e-16/theta^2 into the length of a flat arc
+            chord_bound(p1, p2, "angle", rel=1e-9 + 4e-15 / (th * th))
             return out
         if kind == "theta_bad":
             if "reject" not in impl:
@@ -742,7 +897,7 @@ class C08(core.Check):
             elif not abs(impl["length"] - R * ang) <= TOL_LEN * max(1.0, R * ang):
                 bad("OriginEdge.length", f"length {impl['length']}, radius*angle {R * ang}", impl["length"], R * ang)
             check_desc("OriginEdge.description", M, sc)
-            chord_bound(p1, p2, "origin")
+            chord_bound(p1, p2, "origin", rel=1e-9 + 4e-15 / (ang * ang))
             return out
         if kind == "origin_adj":
             if "reject" in impl or any(math.isnan(x) for x in impl.get("third", [0.0])):
@@ -878,7 +1033,7 @@ class C08(core.Check):
                 lens = [e[3] for e in impl["edges"] if {e[0], e[1]} == {a_, b_}]
                 if len(lens) != 1 or not abs(lens[0] - R * ang) <= TOL_LEN * max(1.0, R * ang):
                     bad(site + ":length", f"edge {a_} {b_}: length {lens}, radius*angle {R * ang}", lens, R * ang)
-                elif not lens[0] >= _norm(dp) * (1 - 1e-9):
+                elif not lens[0] >= _norm(dp) * (1 - 1e-9 - 4e-15 / (ang * ang)):
                     bad(f"Edge.length:shorter-than-chord:mesh-{sp['type']}", f"length {lens[0]} < chord {_norm(dp)}")
             if len(arcs) != n_spec:
                 bad("Mesh.edges:arc-entries", f"{len(arcs)} arc entries written for {n_spec} specified arcs", impl["text"])
@@ -904,6 +1059,8 @@ class C08(core.Check):
             return f"{k}:{case['edge']}"
         if k == "curve":
             return f"curve:{case['curve']}"
+        if k == "arc_hist":
+            return f"arc_hist:{case['spec']}"
         if isinstance(impl, dict) and "reject" in impl:
             return f"{k}:rejected"
         return k
